@@ -41,6 +41,37 @@ def _int_const(e):
     return e.as_long() if z3.is_int_value(e) else None
 
 
+def _const_around_var(e):
+    """e = [const] ++ variable ++ [const] (at least one constant) -> (c1, var, c2) else None"""
+    parts = flatten(e)
+    vars_ = [p for p in parts if not z3.is_string_value(p)]
+    if len(vars_) != 1 or len(parts) == 1 or not (z3.is_const(vars_[0]) and vars_[0].decl().kind() == z3.Z3_OP_UNINTERPRETED):
+        return None
+    i = [k for k, p in enumerate(parts) if not z3.is_string_value(p)][0]
+    c1 = "".join(z3str_to_py(p) for p in parts[:i])
+    c2 = "".join(z3str_to_py(p) for p in parts[i + 1:])
+    return c1, vars_[0], c2
+
+
+def _contains_quotient(c1, c2, s):
+    """regex R with:  s occurs in c1 ++ v ++ c2   <=>   v in R"""
+    if s in c1 or s in c2:
+        return ANYSTR
+    alts = [z3.Concat(ANYSTR, z3.Re(s), ANYSTR)]
+    n = len(s)
+    for k in range(1, n):                       # occurrence starting in c1, ending in v
+        if c1.endswith(s[:k]):
+            alts.append(z3.Concat(z3.Re(s[k:]), ANYSTR))
+    for k in range(1, n):                       # starting in v, ending in c2
+        if c2.startswith(s[k:]):
+            alts.append(z3.Concat(ANYSTR, z3.Re(s[:k])))
+    for i in range(1, n):                       # starting in c1, covering v entirely, ending in c2
+        for j in range(i, n):
+            if c1.endswith(s[:i]) and c2.startswith(s[j:]):
+                alts.append(z3.Re(s[i:j]))
+    return alts[0] if len(alts) == 1 else z3.Union(*alts)
+
+
 def _literal(lit):
     """-> (subject, regex) for a literal that constrains one string term regularly, else None."""
     neg = False
@@ -59,6 +90,10 @@ def _literal(lit):
         subj, rx = lit.arg(0), lit.arg(1)
     elif k == z3.Z3_OP_SEQ_CONTAINS and _is_const_str(lit.arg(1)):
         subj, rx = lit.arg(0), z3.Concat(ANYSTR, z3.Re(z3str_to_py(lit.arg(1))), ANYSTR)
+        around = _const_around_var(subj)
+        if around is not None:
+            # Contains(c1 ++ v ++ c2, s) as a regular constraint on v alone
+            subj, rx = around[1], _contains_quotient(around[0], around[2], z3str_to_py(lit.arg(1)))
     elif k == z3.Z3_OP_SEQ_PREFIX and _is_const_str(lit.arg(0)):
         subj, rx = lit.arg(1), z3.Concat(z3.Re(z3str_to_py(lit.arg(0))), ANYSTR)
     elif k == z3.Z3_OP_SEQ_SUFFIX and _is_const_str(lit.arg(0)):
